@@ -137,6 +137,10 @@ void vf_stall_reset(void);
 void vf_stall2_arm(const char *func, int op, int phase, uint64_t max_ns);
 /* after arming: let the first n matches of this thread pass */
 void vf_stall_skip(int n);
+/* VF_TRACE=1 debugging aid: remember addresses, dump the recorded library atomics on them */
+void vf_trace_watch(const volatile void *addr);
+void vf_trace_watch_reset(void);
+void vf_trace_dump_watched(void);
 void vf_stall2_skip(int n);
 bool vf_stall2_reached(void);
 void vf_stall2_release(void);
